@@ -18,7 +18,7 @@ RULE = ("typed filters over the union of what the three dialects translate (all 
         "left/right sub-trees contain exactly the leaves of the filter node's operands (AND/OR chains compared "
         "flattened); (c) every field is a quoted identifier with its name and every literal occurs with its "
         "value, exactly once outside argument-repeating templates; the alias prefixes every field and nothing "
-        "else. Exhaustive: every function x every argument being a composite of every operator class. "
+        "else. indexof is emitted as `<position call> - 1`: that difference must exist as one SQL node and be, as a whole, the operand of the counterpart of the parent operator (unary minus, arithmetic). Exhaustive: every function x every argument being a composite of every operator class. "
         "Non-trivial: >= 3 operator/function nodes with an operator nested under a different one; distinct by "
         "(term skeleton, dialect, alias)."
         " String leaves carry tails that need quoting/escaping (' % _' \\ %'q); some lists repeat one of their values and every written element must still be emitted (occurrence counts are compared).")
